@@ -10,6 +10,7 @@ From ClapModel Require Import ParseProofs.Actions ParseProofs.Unparse ParseProof
 From ClapModel Require Import Base.Utf8 Lex.OsStrExtModel Lex.OsStrExtProofs ParseProofs.UnparseLift.
 From ClapModel Require Import ParseProofs.UnparseX ParseProofs.UnparseXProofs ParseProofs.UnparseXTree ParseProofs.UnparseXExamples.
 From ClapModel Require Import ParseProofs.Globals ParseProofs.UnparseGlobals ParseProofs.Spelling ParseProofs.UnparsePending ParseProofs.UnparseBridge.
+From ClapModel Require Import ParseProofs.Escape ParseProofs.UnparseXTrail ParseProofs.UnparseYTree ParseProofs.UnparseYExamples ParseProofs.UnparseUser ParseProofs.LoopStep ParseProofs.UnparsePendingLoop ParseProofs.UnparseXLook ParseProofs.UnparseUserTree ParseProofs.UnparseUserTreeX.
 From Coq Require Import ZArith Sorting.Sorted Sorting.Permutation List.
 Import ListNotations.
 Open Scope N_scope.
@@ -694,8 +695,9 @@ Theorem C02_pending_nonvacuous :
 Proof. exact PendOptEx.ex. Qed.
 Print Assumptions C02_pending_nonvacuous.
 
-(** (6) THE BRIDGE from the command as written to the class on the built command -- PARTIAL (ParseProofs/UnparseBridge.v).
-    Full statement (not proved): [forall c0, valid c0 = true -> conventional0 c0 = true ->
+(** (6) THE BRIDGE from the command as written to the class on the built command -- the steps (ParseProofs/UnparseBridge.v);
+    the assembly is [C02_bridge] / [C02_bridge_conventional0] below (fourth pass).
+    Full statement (third pass: not proved; now [C02_bridge_conventional0]): [forall c0, valid c0 = true -> conventional0 c0 = true ->
     low_index_multiple (build_self c0) = false -> conv (build_self c0) = true].
     Proved, for all commands: [Arg::_build] and the positional-index assignment keep the six per-argument conjuncts of
     [conv] for every declared argument; the settings the class mentions are unchanged by the stages of [_build_self] before
@@ -777,3 +779,363 @@ Theorem C02_flag_subs_nonvacuous :
                                /\ map (fun p => (fst p, m_indices (snd p))) (ms_args sm) = [([120], [3]); ([118], [4]); ([119], [5])]).
 Proof. exact fs_index_example. Qed.
 Print Assumptions C02_flag_subs_nonvacuous.
+(** * Fourth pass.
+    (1) TAILS FOR THE LIFTED CLASS; [last(true)] AND [trailing_var_arg] POSITIONALS (ParseProofs/UnparseXTrail.v, UnparseYTree.v).
+    [convx] (the class of all [_x] theorems above) now admits positionals with [last(true)] and [trailing_var_arg], and a multiple
+    positional below the highest index when the last positional is [last(true)] (the parser's own test [low_index_mults_any], C05);
+    a run of values BEFORE [--] is never for a [last(true)] / [trailing_var_arg] positional ([posx_ok]).
+    Trees [invy] = items, then nothing | subcommand + tree | [--] + values ([YTrail]) | the run of a [trailing_var_arg]
+    positional ([YTva], rendered without [--]).  After [--] every token -- whatever it looks like -- goes to the positional the
+    CORRECTED counter points at ([sink_index], C05: the highest positional when there is a [last(true)] one); a positional taking
+    several values takes all that remain.  A [trailing_var_arg] run: the first value is an ordinary value token, all later tokens are
+    raw values of the same occurrence; it denotes what [--] followed by the same values denotes. *)
+Theorem C02_unparse_after_escape_x : forall c, convx c = true -> low_index_mults_any c = false ->
+  forall (vs : list bytes) pos pst vaf st, wfx_trail c pos vs = true -> pend_inv c PSValuesDone st ->
+  parse_loop c vs (mkL pst pos vaf true) st = (do s' <- trailx_apply c pos vs st; ROk (LDone s')).
+Proof. exact loop_trail_x. Qed.
+Print Assumptions C02_unparse_after_escape_x.
+
+Theorem C02_unparse_tva_run : forall c, convx c = true -> low_index_mults_any c = false ->
+  forall (vs : list bytes) pos vaf st, wfx_tva c pos vs = true -> pend_inv c PSValuesDone st ->
+  parse_loop c vs (mkL PSValuesDone pos vaf false) st = (do s' <- trailx_apply c pos vs st; ROk (LDone s')).
+Proof. exact loop_tva. Qed.
+Print Assumptions C02_unparse_tva_run.
+
+Theorem C02_unparse_tree_y : forall i c f, valid_tree (S f) c = true -> wfy_inv c i = true ->
+  get_matches_with (S f) c (render_invy i) ps_new = run_invy c i.
+Proof. exact gmw_inv_y. Qed.
+Print Assumptions C02_unparse_tree_y.
+
+Theorem C02_unparse_y : forall c0 bin i, is_set s_no_binary_name c0 = false ->
+  valid (with_bin c0 bin) = true -> wfy_inv (build_self (with_bin c0 bin)) i = true ->
+  parse_top c0 (bin :: render_invy i) =
+  finish_outcome (with_bin c0 bin) (run_invy (build_self (with_bin c0 bin)) i).
+Proof. exact parse_top_inv_y. Qed.
+Print Assumptions C02_unparse_y.
+
+Theorem C02_unparse_denote_y : forall c0 bin i st, is_set s_no_binary_name c0 = false ->
+  valid (with_bin c0 bin) = true -> wfy_inv (build_self (with_bin c0 bin)) i = true ->
+  no_globals (build_recursive (S (S (depth (build_self (with_bin c0 bin))))) (with_bin c0 bin)) = true ->
+  run_invy (build_self (with_bin c0 bin)) i = ROk st ->
+  parse_top c0 (bin :: render_invy i) = OOk (into_inner (mt st)).
+Proof. exact parse_top_denote_y. Qed.
+Print Assumptions C02_unparse_denote_y.
+
+Theorem C02_unparse_globals_y : forall c0 bin i st, is_set s_no_binary_name c0 = false ->
+  valid (with_bin c0 bin) = true -> wfy_inv (build_self (with_bin c0 bin)) i = true ->
+  run_invy (build_self (with_bin c0 bin)) i = ROk st ->
+  parse_top c0 (bin :: render_invy i) =
+  OOk (ins_levels (merged_map (with_bin c0 bin) (into_inner (mt st))) (into_inner (mt st))).
+Proof. exact parse_top_merged_y. Qed.
+Print Assumptions C02_unparse_globals_y.
+
+Theorem C02_conservation_tree_y : forall i c f st, valid_tree (S f) c = true -> wfy_inv c i = true ->
+  get_matches_with (S f) c (render_invy i) ps_new = ROk st ->
+  forall a, In a (c_args c) ->
+    (forall gs, denote_os c (a_id a) (invy_occs c i) = Some gs -> groups_of (a_id a) (mt st) = Some gs)
+    /\ (forall e, fm_get (a_id a) (mt_args (mt st)) = Some e -> m_source e = Some SCmdLine ->
+          denote_os c (a_id a) (invy_occs c i) = Some (m_raw e)).
+Proof. exact conservation_inv_y. Qed.
+Print Assumptions C02_conservation_tree_y.
+
+Theorem C02_indices_tree_y : forall i c f st, valid_tree (S f) c = true -> wfy_inv c i = true ->
+  get_matches_with (S f) c (render_invy i) ps_new = ROk st ->
+  forall a ix, In a (c_args c) -> denote_idx_os c (a_id a) (invy_occs c i) = Some ix ->
+  idx_of (a_id a) (mt st) = Some ix.
+Proof. exact indices_inv_y. Qed.
+Print Assumptions C02_indices_tree_y.
+
+(** the trees of the earlier passes are the trees without a [trailing_var_arg] run; both earlier classes are contained,
+    with the same rendering and the same meaning (in the old class the corrected counter is the counter) *)
+Theorem C02_class_lifted_tails :
+  (forall i, render_invy (of_inv i) = render_inv i) /\
+  (forall i c, wf_inv c i = true -> wfy_inv c (of_inv i) = true /\ run_invy c (of_inv i) = run_inv c i) /\
+  (forall i c, wfx_inv c i = true -> wfy_inv c (of_inv i) = true /\ run_invy c (of_inv i) = run_inv c i).
+Proof. exact (conj render_of_inv (conj wf_inv_wfy_inv wfx_inv_wfy_inv)). Qed.
+Print Assumptions C02_class_lifted_tails.
+
+(** Non-vacuity: [prog -v --opt <o> <files>... [-- <cmd>...]] ([cmd] last(true) with terminator [;], [files] a multiple
+    positional below it): [-v A B --opt X -- -a -- run] and [-v -- R S] (the counter jumps over the absent [files]). *)
+Theorem C02_unparse_y_nonvacuous :
+  (is_set s_no_binary_name YEx.c0 = false /\ valid (with_bin YEx.c0 YEx.bin) = true /\ wfy_inv YEx.c YEx.yinv = true /\ wfy_inv YEx.c YEx.yinv2 = true /\
+   convx YEx.c = true /\ conv YEx.c = false /\ low_index_multiple YEx.c = true /\
+   no_globals (build_recursive (S (S (depth YEx.c))) (with_bin YEx.c0 YEx.bin)) = true /\
+   render_invy YEx.yinv = [[45; 118]; [65]; [66]; [45; 45; 111; 112; 116]; [88]; [45; 45]; [45; 97]; [45; 45]; [114; 117; 110]] /\
+   render_invy YEx.yinv2 = [[45; 118]; [45; 45]; [82]; [83]]) /\
+  exists m m2,
+    parse_top YEx.c0 (YEx.bin :: render_invy YEx.yinv) = OOk m /\
+    YEx.raw_of [102] m = Some [[[65]; [66]]] /\ YEx.raw_of [99] m = Some [[[45; 97]; [45; 45]; [114; 117; 110]]] /\ YEx.raw_of [111] m = Some [[[88]]] /\
+    YEx.idx_of_m [102] m = Some [2; 3] /\ YEx.idx_of_m [99] m = Some [6; 7; 8] /\
+    parse_top YEx.c0 (YEx.bin :: render_invy YEx.yinv2) = OOk m2 /\
+    YEx.raw_of [102] m2 = None /\ YEx.raw_of [99] m2 = Some [[[82]; [83]]] /\ YEx.idx_of_m [99] m2 = Some [2; 3].
+Proof. split; [exact YEx.ex_hyps|exact YEx.ex_parse]. Qed.
+Print Assumptions C02_unparse_y_nonvacuous.
+
+(** Non-vacuity: [prog -v <cmd> <args>...] with [args] trailing_var_arg: [-v C a1 --x -v -- z] *)
+Theorem C02_unparse_tva_nonvacuous :
+  (is_set s_no_binary_name YEx.t0 = false /\ valid (with_bin YEx.t0 YEx.bin) = true /\ wfy_inv YEx.tc YEx.tinv = true /\
+   convx YEx.tc = true /\ conv YEx.tc = false /\
+   no_globals (build_recursive (S (S (depth YEx.tc))) (with_bin YEx.t0 YEx.bin)) = true /\
+   render_invy YEx.tinv = [[45; 118]; [67]; [97; 49]; [45; 45; 120]; [45; 118]; [45; 45]; [122]]) /\
+  exists m,
+    parse_top YEx.t0 (YEx.bin :: render_invy YEx.tinv) = OOk m /\
+    YEx.raw_of [99] m = Some [[[67]]] /\ YEx.raw_of [97] m = Some [[[97; 49]; [45; 45; 120]; [45; 118]; [45; 45]; [122]]] /\
+    YEx.raw_of [118] m = Some [[[49]]] /\ YEx.idx_of_m [97] m = Some [3; 4; 5; 6; 7].
+Proof. split; [exact YEx.ex_tva_hyps|exact YEx.ex_tva_parse]. Qed.
+Print Assumptions C02_unparse_tva_nonvacuous.
+
+(** (2) THE BRIDGE, COMPLETE (ParseProofs/UnparseBridge.v, UnparseUser.v): from the command AS THE USER WRITES IT to the class
+    of the theorems on the built command, for ALL commands passing the validity gate.
+    [user_conventional c0]: not yet built; none of [subcommand_precedence_over_arg], [allow_missing_positional], command-level
+    [allow_hyphen_values] / [allow_negative_numbers] / [trailing_var_arg]; every declared argument [conv_arg]; no explicit
+    positional index; only the LAST declared positional takes several values / appends (judged after [Arg::_build] has filled in
+    action and value range).  [user_conventionalx], for the lifted class: not yet built; no [subcommand_precedence_over_arg], no
+    command-level [allow_hyphen_values] / [allow_negative_numbers] / [trailing_var_arg]; no explicit positional index; declared
+    options free of [last]/[trailing_var_arg] (everything else -- positionals included -- is free).
+    The generated [--help] / [--version] flags, [Arg::_build], the index assignment, the deprecated-settings push and the
+    [Built] mark are all covered; the low-index conjunct is DERIVED ([C02_bridge_low_index]: the k-th declared positional gets
+    index k, the number of positional keys is the number of positionals). *)
+Theorem C02_bridge : forall c0, valid c0 = true -> user_conventional c0 = true -> conv (build_self c0) = true.
+Proof. exact conv_of_user. Qed.
+Print Assumptions C02_bridge.
+
+Theorem C02_bridge_x : forall c0, valid c0 = true -> user_conventionalx c0 = true -> convx (build_self c0) = true.
+Proof. exact convx_of_user. Qed.
+Print Assumptions C02_bridge_x.
+
+Theorem C02_bridge_conventional0 : forall c0, valid c0 = true -> conventional0 c0 = true ->
+  low_index_multiple (build_self c0) = false -> conv (build_self c0) = true.
+Proof. exact conv_of_conventional0. Qed.
+Print Assumptions C02_bridge_conventional0.
+
+Theorem C02_bridge_low_index : forall c0, s_built (c_set c0) = false ->
+  is_set s_allow_hyphen c0 = false -> is_set s_allow_negnum c0 = false -> is_set s_tva c0 = false ->
+  no_index (c_args c0) = true -> last_only_multiple (c_args c0) = true ->
+  low_index_multiple (build_self c0) = false.
+Proof. exact low_index_of_user. Qed.
+Print Assumptions C02_bridge_low_index.
+
+(** THE UN-PARSER THEOREM ON THE DEFINITION AS WRITTEN: the class conjunct of the root level is discharged; what is left on the
+    built command is what mentions its lookup tables ([wf_body]: the items, and the class of the children of a tree) *)
+Theorem C02_unparse_user : forall c0 bin i, is_set s_no_binary_name c0 = false -> valid (with_bin c0 bin) = true ->
+  user_conventional c0 = true -> is_set s_ignore_errors c0 = false ->
+  wf_body (build_self (with_bin c0 bin)) i = true ->
+  parse_top c0 (bin :: render_inv i) = finish_outcome (with_bin c0 bin) (run_inv (build_self (with_bin c0 bin)) i).
+Proof. exact parse_top_user. Qed.
+Print Assumptions C02_unparse_user.
+
+Theorem C02_unparse_user_y : forall c0 bin i, is_set s_no_binary_name c0 = false -> valid (with_bin c0 bin) = true ->
+  user_conventionalx c0 = true -> is_set s_ignore_errors c0 = false ->
+  wfy_body (build_self (with_bin c0 bin)) i = true ->
+  parse_top c0 (bin :: render_invy i) = finish_outcome (with_bin c0 bin) (run_invy (build_self (with_bin c0 bin)) i).
+Proof. exact parse_top_user_y. Qed.
+Print Assumptions C02_unparse_user_y.
+
+(** Non-vacuity: the example commands of the earlier passes satisfy the user-level classes as written *)
+Theorem C02_bridge_nonvacuous :
+  user_conventional UnparseEx.c0 = true /\ is_set s_ignore_errors UnparseEx.c0 = false /\
+  wf_body (build_self (with_bin UnparseEx.c0 [112])) (ILeaf UnparseEx.its) = true /\
+  user_conventionalx XEx.c0 = true /\ user_conventional XEx.c0 = false /\
+  wfy_body (build_self (with_bin XEx.c0 XEx.bin)) (of_inv XEx.xinv) = true /\
+  user_conventionalx YEx.t0 = true /\ wfy_body (build_self (with_bin YEx.t0 YEx.bin)) YEx.tinv = true /\
+  user_conventionalx YEx.c0 = true /\ convx YEx.c = true.
+Proof. exact user_examples. Qed.
+Print Assumptions C02_bridge_nonvacuous.
+
+(** (3) [C02_pending_bounded] AS ONE INVARIANT OF [parse_loop] (ParseProofs/UnparsePendingLoop.v), for ALL commands passing
+    [assert_app], ALL token lists, ALL exits of the loop (end of line, subcommand, external subcommand, help subcommand, error).
+    [bnd c st]: the occurrence being collected, if it belongs to an OPTION (an argument without positional index), holds at
+    most [num_args.max] values.  [PB c ls st] = [bnd] + while the loop is in state [Opt(i)], [i] takes values and its buffer is
+    strictly below the maximum.  [PB] holds initially, and from ANY loop state satisfying it every exit state satisfies [bnd]:
+    the proof is an induction over the tokens that re-establishes [PB] at every recursive call, following each branch of the
+    iteration ([parse_loop_step]: the iteration split into its classification and delivery phases, by computation).
+    For positionals the statement stays refuted ([C02_pending_positional_refuted]): their run is counted when flushed
+    ([C02_flushed_in_range]). *)
+Theorem C02_pending_invariant : forall c, assert_app c = true ->
+  PB c (mkL PSValuesDone 1 false false) ps_new /\
+  forall toks ls st, PB c ls st -> okres c (parse_loop c toks ls st).
+Proof. exact (fun c HA => conj (PB_new c) (pending_bounded_loop c HA)). Qed.
+Print Assumptions C02_pending_invariant.
+
+Theorem C02_pending_bounded : forall c toks, assert_app c = true ->
+  match parse_loop c toks (mkL PSValuesDone 1 false false) ps_new with
+  | ROk lr => bnd c (lr_st lr)
+  | RErr _ s => bnd c s
+  | RPanic _ => True
+  end.
+Proof. exact pending_bounded. Qed.
+Print Assumptions C02_pending_bounded.
+
+(** what [bnd] says, spelled out (definitional) *)
+Theorem C02_pending_bounded_meaning : forall c st,
+  bnd c st <-> (forall p a r, mt_pending (mt st) = Some p -> find_arg c (p_id p) = Some a -> a_index a = None ->
+                  a_num a = Some r -> N.of_nat (length (p_raw p)) <= vmax r).
+Proof. exact (fun c st => conj (fun H => H) (fun H => H)). Qed.
+Print Assumptions C02_pending_bounded_meaning.
+
+(** one iteration of the loop = classification phase, then delivery phase (the decomposition the invariant proof follows) *)
+Theorem C02_parse_loop_step : forall c tok rest ls st,
+  parse_loop c (tok :: rest) ls st =
+  (do p1 <- phase1 c (parse_loop c rest) tok rest ls st;
+   let '(early, ls, st) := p1 in
+   match early with Some r => r | None => phase2 c (parse_loop c rest) tok rest ls st end).
+Proof. exact parse_loop_step. Qed.
+Print Assumptions C02_parse_loop_step.
+
+(** Non-vacuity: [prog --mu <v>{1..2}] on [--mu A B]: the hypothesis holds and the bound is attained *)
+Theorem C02_pending_bounded_nonvacuous : assert_app PendLoopEx.c = true /\
+  exists st p a, parse_loop PendLoopEx.c PendLoopEx.toks (mkL PSValuesDone 1 false false) ps_new = ROk (LDone st) /\
+    mt_pending (mt st) = Some p /\ find_arg PendLoopEx.c (p_id p) = Some a /\ a_index a = None /\
+    a_num a = Some {| vmin := 1; vmax := 2 |} /\ p_raw p = [[65]; [66]].
+Proof. exact PendLoopEx.ex. Qed.
+Print Assumptions C02_pending_bounded_nonvacuous.
+
+(** (1, last part) HYPHEN / NEGATIVE-NUMBER VALUES OF POSITIONALS (UnparseX.v [hyphen_tok], [cluster_clear], [posx_ok]; UnparseXTrail.v
+    [wfx_hyp]).  [convx] puts no condition on a positional's [allow_hyphen_values] / [allow_negative_numbers] any more.  While the
+    counter points at such a positional: an unknown long flag, a cluster with an unknown short ([allow_hyphen_values]) or a
+    [-<number>] token ([allow_negative_numbers]) IS a value of that positional ([ItPos [v]], class [hyph_single]); a cluster is a
+    cluster only if it is neither ([cluster_clear], part of [wfx_item]).  The run of a MULTI-valued positional with hyphen
+    values swallows the rest of the line -- known flags, [--], subcommand names: tree constructor [YHyp], class [wfx_hyp];
+    all theorems [_y] above quantify over these trees too.  [C02_hyphen_run]: the loop on such a run. *)
+Theorem C02_hyphen_run : forall c, convx c = true ->
+  forall (vs : list bytes) pos vaf st, wfx_hyp c pos vs = true -> pend_inv c PSValuesDone st ->
+  parse_loop c vs (mkL PSValuesDone pos vaf false) st = (do s' <- apply_item c pos (ItPos vs) st; ROk (LDone s')).
+Proof. exact loop_hyp. Qed.
+Print Assumptions C02_hyphen_run.
+
+(** the token that looks like a flag and is a value: one step of the loop *)
+Theorem C02_hyphen_value_token : forall c, convx c = true -> forall (v : bytes) (rest : list bytes) pos vaf st a,
+  nosub c v = true -> hyphen_tok c pos v = true -> get_pos c pos = Some a ->
+  lookahead_off c pos -> check_terminator a v = false -> a_last a = false -> a_tva a = false ->
+  parse_loop c (v :: rest) (mkL PSValuesDone pos vaf false) st = pos_step_k c a v rest pos st.
+Proof. exact pos_branch_h. Qed.
+Print Assumptions C02_hyphen_value_token.
+
+(** Non-vacuity: [prog -v --opt <o> <pat> <num>] ([pat]: hyphen values, [num]: negative numbers) on [-v --opt X --weird -5] and
+    [-x -v -7]; [prog -v <cmd> <args>...] ([args]: hyphen values) with a subcommand [sub] on [-v C --foo -v -- sub]. *)
+Theorem C02_hyphen_positional_nonvacuous :
+  (is_set s_no_binary_name HEx.c0 = false /\ valid (with_bin HEx.c0 HEx.bin) = true /\ wfy_inv HEx.c HEx.hinv = true /\ wfy_inv HEx.c HEx.hinv2 = true /\
+   user_conventionalx HEx.c0 = true /\
+   no_globals (build_recursive (S (S (depth HEx.c))) (with_bin HEx.c0 HEx.bin)) = true /\
+   render_invy HEx.hinv = [[45; 118]; [45; 45; 111; 112; 116]; [88]; [45; 45; 119; 101; 105; 114; 100]; [45; 53]] /\
+   render_invy HEx.hinv2 = [[45; 120]; [45; 118]; [45; 55]]) /\
+  (exists m m2,
+    parse_top HEx.c0 (HEx.bin :: render_invy HEx.hinv) = OOk m /\
+    HEx.raw_of [112] m = Some [[[45; 45; 119; 101; 105; 114; 100]]] /\ HEx.raw_of [110] m = Some [[[45; 53]]] /\ HEx.raw_of [111] m = Some [[[88]]] /\
+    HEx.raw_of [118] m = Some [[[49]]] /\ HEx.idx_of_m [112] m = Some [4] /\ HEx.idx_of_m [110] m = Some [5] /\
+    parse_top HEx.c0 (HEx.bin :: render_invy HEx.hinv2) = OOk m2 /\
+    HEx.raw_of [112] m2 = Some [[[45; 120]]] /\ HEx.raw_of [110] m2 = Some [[[45; 55]]] /\ HEx.raw_of [118] m2 = Some [[[49]]] /\
+    HEx.idx_of_m [112] m2 = Some [1] /\ HEx.idx_of_m [110] m2 = Some [3]) /\
+  (is_set s_no_binary_name HEx.m0 = false /\ valid (with_bin HEx.m0 HEx.bin) = true /\ wfy_inv HEx.mc HEx.minv = true /\ user_conventionalx HEx.m0 = true /\
+   no_globals (build_recursive (S (S (depth HEx.mc))) (with_bin HEx.m0 HEx.bin)) = true /\
+   render_invy HEx.minv = [[45; 118]; [67]; [45; 45; 102; 111; 111]; [45; 118]; [45; 45]; [115; 117; 98]]) /\
+  (exists m,
+    parse_top HEx.m0 (HEx.bin :: render_invy HEx.minv) = OOk m /\ HEx.raw_of [99] m = Some [[[67]]] /\
+    HEx.raw_of [97] m = Some [[[45; 45; 102; 111; 111]; [45; 118]; [45; 45]; [115; 117; 98]]] /\
+    HEx.raw_of [118] m = Some [[[49]]] /\ HEx.idx_of_m [97] m = Some [3; 4; 5; 6] /\ ms_sub m = None).
+Proof. exact (conj HEx.ex_hyps (conj HEx.ex_parse (conj HEx.ex_multi_hyps HEx.ex_multi_parse))). Qed.
+Print Assumptions C02_hyphen_positional_nonvacuous.
+
+(** (4) LOW-INDEX MULTIPLES ([<sources>... <target>]) AND [allow_missing_positional] IN THE INVOCATION LANGUAGE
+    (ParseProofs/UnparseXLook.v; tree constructor [YLook its init vl its2] of [invy], so every [_y] theorem above covers it).
+    [convx] no longer excludes either.  They switch on the LOOK-AHEAD of the positional counter correction at the second-to-last
+    positional [a] ([lookahead_at c pos]; off when [a] has a value terminator): a value followed by another plain value stays with
+    [a]; a value followed by a flag-looking token, or by nothing, goes to the LAST positional [b].  A look-ahead run is
+    [init ++ [vl]] followed by nothing or by items that start with a flag: [init] (any number of values if [a] takes several,
+    at most one otherwise; none = [a] is skipped) is one occurrence of [a], [vl] the occurrence of [b].
+    Everywhere else ([lookahead_at c pos = false]) the correction is the identity ([C02_lookahead_off]) and runs are ordinary
+    items.  After [--] the look-ahead of a low-index multiple stays live: [YTrail]/[YTva] keep [low_index_mults_any c = false]. *)
+Theorem C02_lookahead_run : forall c, convx c = true -> forall pos (init : list bytes) (vl : bytes) (next : list bytes) vaf st,
+  wfx_look c pos init vl next = true -> pend_inv c PSValuesDone st ->
+  parse_loop c (init ++ vl :: next) (mkL PSValuesDone pos vaf false) st =
+  (do s' <- look_apply c pos init vl st; parse_loop c next (mkL PSValuesDone (pos + 2) true false) s').
+Proof. exact loop_look_wf. Qed.
+Print Assumptions C02_lookahead_run.
+
+Theorem C02_lookahead_off : forall c pos, lookahead_at c pos = false ->
+  forall vaf (rest : list bytes) pst, pc_part c rest (mkL pst pos vaf false) = ROk pos.
+Proof. exact lookahead_off_of. Qed.
+Print Assumptions C02_lookahead_off.
+
+(** Non-vacuity: [prog -v <src>... <dst>] on [-v A B C] and [A B C -v]; [prog -v [first] <second>] with
+    [allow_missing_positional] on [A -v] ([first] skipped) and [-v A B]. *)
+Theorem C02_lookahead_nonvacuous :
+  (is_set s_no_binary_name LEx.c0 = false /\ valid (with_bin LEx.c0 LEx.bin) = true /\ wfy_inv LEx.c LEx.l1 = true /\ wfy_inv LEx.c LEx.l2 = true /\
+   user_conventionalx LEx.c0 = true /\ low_index_mults_any LEx.c = true /\
+   no_globals (build_recursive (S (S (depth LEx.c))) (with_bin LEx.c0 LEx.bin)) = true /\
+   render_invy LEx.l1 = [[45; 118]; [65]; [66]; [67]] /\ render_invy LEx.l2 = [[65]; [66]; [67]; [45; 118]]) /\
+  (exists m m2,
+    parse_top LEx.c0 (LEx.bin :: render_invy LEx.l1) = OOk m /\
+    LEx.raw_of [115] m = Some [[[65]; [66]]] /\ LEx.raw_of [100] m = Some [[[67]]] /\ LEx.raw_of [118] m = Some [[[49]]] /\
+    LEx.idx_of_m [115] m = Some [2; 3] /\ LEx.idx_of_m [100] m = Some [4] /\
+    parse_top LEx.c0 (LEx.bin :: render_invy LEx.l2) = OOk m2 /\
+    LEx.raw_of [115] m2 = Some [[[65]; [66]]] /\ LEx.raw_of [100] m2 = Some [[[67]]] /\ LEx.raw_of [118] m2 = Some [[[49]]] /\
+    LEx.idx_of_m [115] m2 = Some [1; 2] /\ LEx.idx_of_m [100] m2 = Some [3]) /\
+  (is_set s_no_binary_name LEx.m0 = false /\ valid (with_bin LEx.m0 LEx.bin) = true /\ wfy_inv LEx.mc LEx.a1 = true /\ wfy_inv LEx.mc LEx.a2 = true /\
+   user_conventionalx LEx.m0 = true /\ is_set s_allow_missing_pos LEx.mc = true /\
+   no_globals (build_recursive (S (S (depth LEx.mc))) (with_bin LEx.m0 LEx.bin)) = true /\
+   render_invy LEx.a1 = [[65]; [45; 118]] /\ render_invy LEx.a2 = [[45; 118]; [65]; [66]]) /\
+  (exists m m2,
+    parse_top LEx.m0 (LEx.bin :: render_invy LEx.a1) = OOk m /\ LEx.raw_of [102] m = None /\ LEx.raw_of [115] m = Some [[[65]]] /\ LEx.idx_of_m [115] m = Some [1] /\
+    parse_top LEx.m0 (LEx.bin :: render_invy LEx.a2) = OOk m2 /\ LEx.raw_of [102] m2 = Some [[[65]]] /\ LEx.raw_of [115] m2 = Some [[[66]]] /\
+    LEx.idx_of_m [102] m2 = Some [2] /\ LEx.idx_of_m [115] m2 = Some [3]).
+Proof. exact (conj LEx.ex_hyps (conj LEx.ex_parse (conj LEx.ex_amp_hyps LEx.ex_amp_parse))). Qed.
+Print Assumptions C02_lookahead_nonvacuous.
+
+(** (2, trees) THE BRIDGE FOR WHOLE COMMAND TREES (ParseProofs/UnparseUserTree.v).  [user_tree k c0] ([k] > depth of the tree as
+    written): at EVERY node [user_conventional], no [ignore_errors], no [Built] mark in the global settings, global arguments
+    are options, no subcommand named or aliased [help].  The class is stable under what the parser does to a child before
+    building it ([_propagate_subcommand]: the parent's global settings; [_propagate_global_args]: the parent's global
+    arguments) -- [C02_user_tree_stable] -- so the class conjuncts of every level of [wf_inv] follow from the tree as written:
+    what remains ([wf_tree_body]) are the items of each level and the subcommand names. *)
+Theorem C02_user_tree_stable : forall k c0 s0, user_node c0 = true -> user_tree k s0 = true ->
+  user_tree k (prop_child c0 s0) = true.
+Proof. exact prop_child_tree. Qed.
+Print Assumptions C02_user_tree_stable.
+
+Theorem C02_bridge_tree : forall i k c0 f, user_tree k c0 = true -> valid_tree (S f) (build_self c0) = true ->
+  wf_tree_body (build_self c0) i = true -> wf_inv (build_self c0) i = true.
+Proof. exact wf_inv_of_user_tree. Qed.
+Print Assumptions C02_bridge_tree.
+
+Theorem C02_unparse_user_tree : forall c0 bin i k, is_set s_no_binary_name c0 = false -> valid (with_bin c0 bin) = true ->
+  user_tree k c0 = true -> wf_tree_body (build_self (with_bin c0 bin)) i = true ->
+  parse_top c0 (bin :: render_inv i) = finish_outcome (with_bin c0 bin) (run_inv (build_self (with_bin c0 bin)) i).
+Proof. exact parse_top_user_tree. Qed.
+Print Assumptions C02_unparse_user_tree.
+
+Theorem C02_bridge_tree_nonvacuous :
+  user_tree 3 UnparseEx.t0 = true /\
+  wf_tree_body (build_self (with_bin UnparseEx.t0 UnparseEx.tbin)) UnparseEx.tinv = true /\
+  user_tree 3 GlobEx.c0 = true /\ wf_tree_body (build_self (with_bin GlobEx.c0 GlobEx.bin)) GlobEx.ginv = true /\
+  user_tree 1 UnparseEx.t0 = false.
+Proof. exact user_tree_examples. Qed.
+Print Assumptions C02_bridge_tree_nonvacuous.
+
+(** ... and for trees of the LIFTED class (ParseProofs/UnparseUserTreeX.v): [user_treex] = at every node [user_conventionalx], no
+    [ignore_errors], no [Built] mark in the global settings, no subcommand named or aliased [help]; [C02_child_is_propagated]: the
+    child the parser builds for a subcommand token IS [build_self] of the declared child after propagation ([prop_child]) with
+    its binary and display names set ([named_sub]). *)
+Theorem C02_child_is_propagated : forall c0 scn sc0 scb, s_built (c_set c0) = false -> no_help_sub c0 = true ->
+  (beq scn s_help && negb (is_set s_disable_help_sub (build_self c0))) = false ->
+  find_subcommand (build_self c0) scn = Some sc0 -> build_subcommand (build_self c0) (c_name sc0) = Some scb ->
+  exists s0, In s0 (c_subs c0) /\ scb = build_self (named_sub (build_self c0) (prop_child c0 s0)).
+Proof. exact child_is_prop. Qed.
+Print Assumptions C02_child_is_propagated.
+
+Theorem C02_bridge_tree_y : forall i k c0 f, user_treex k c0 = true -> valid_tree (S f) (build_self c0) = true ->
+  wfy_tree_body (build_self c0) i = true -> wfy_inv (build_self c0) i = true.
+Proof. exact wfy_inv_of_user_tree. Qed.
+Print Assumptions C02_bridge_tree_y.
+
+Theorem C02_unparse_user_tree_y : forall c0 bin i k, is_set s_no_binary_name c0 = false -> valid (with_bin c0 bin) = true ->
+  user_treex k c0 = true -> wfy_tree_body (build_self (with_bin c0 bin)) i = true ->
+  parse_top c0 (bin :: render_invy i) = finish_outcome (with_bin c0 bin) (run_invy (build_self (with_bin c0 bin)) i).
+Proof. exact parse_top_user_tree_y. Qed.
+Print Assumptions C02_unparse_user_tree_y.
+
+Theorem C02_bridge_tree_y_nonvacuous :
+  user_treex 3 XEx.c0 = true /\ wfy_tree_body (build_self (with_bin XEx.c0 XEx.bin)) (of_inv XEx.xinv) = true /\
+  user_tree 3 XEx.c0 = false.
+Proof. exact user_treex_examples. Qed.
+Print Assumptions C02_bridge_tree_y_nonvacuous.
